@@ -282,6 +282,16 @@ impl Process {
     /// the FD. If the FD is equal to or greater than the current soft limit for
     /// `Resource::NOFILE`, returns `Err(body)`.
     pub fn set_fd(&mut self, fd: Fd, body: FdBody) -> Result<Option<FdBody>, FdBody> {
+        if self.fd_is_below_limit(fd) {
+            Ok(self.fds.insert(fd, body))
+        } else {
+            Err(body)
+        }
+    }
+
+    /// Tests whether the FD is less than the current soft limit for
+    /// `Resource::NOFILE`.
+    fn fd_is_below_limit(&self, fd: Fd) -> bool {
         let limit = self
             .resource_limits
             .get(&Resource::NOFILE)
@@ -292,11 +302,14 @@ impl Process {
             clippy::unnecessary_cast,
             reason = "the types of FD and limit may vary across platforms"
         )]
-        if limit == INFINITY || (fd.0 as u64) < limit as u64 {
-            Ok(self.fds.insert(fd, body))
-        } else {
-            Err(body)
-        }
+        let result = limit == INFINITY || (fd.0 as u64) < limit as u64;
+        result
+    }
+
+    /// Tests whether [`open_fd`](Self::open_fd) can assign a new FD.
+    #[must_use]
+    pub fn has_unused_fd(&self) -> bool {
+        self.fd_is_below_limit(min_unused_fd(Fd(0), self.fds.keys()))
     }
 
     /// Assigns a new FD to the given body.
